@@ -177,7 +177,8 @@ def alpha_rename(R, fn_lines, ann, name):
         m = re.search(pat, text)
         if not m:
             raise LostAnchor(f"{name}: binding of local `{canon}` not found ({pat!r})")
-        ren.append((m.group(1), canon))
+        if m.group(1) is not None:      # None: the pattern binds nothing (`_`), there is nothing to rename
+            ren.append((m.group(1), canon))
     n = 0
     for act, canon in ren:
         if act != canon:
@@ -242,6 +243,10 @@ def annotate_fn(R, fn_lines, ann, name):
         else:
             ins_list.append(ins)
     for ins in ins_list:
+        if ins.get("optional") and not any(re.search(ins["at"], l) for l in body):
+            # a proof hint for a statement that the changed code no longer has: the obligation is then checked without it
+            R.counts["X7.optional_hint_skipped"] = R.counts.get("X7.optional_hint_skipped", 0) + 1
+            continue
         i = find_line(body, ins["at"], ins.get("nth", 1), f"{name}:{ins['at']}")
         # Ghost `let` bindings must stay in scope for the rest of the loop body.  If an edit has wrapped the
         # anchor statement in a new block (e.g. `if c { visited.insert(node); }`), splice after that block
@@ -417,13 +422,13 @@ def extract_drop(repo, DROP, R):
     ai, am = al[0]
     cell, owner = am.group(1), am.group(2)
     # the loop header
-    hs = [(i, re.match(r"^(\s*)for \((\w+), &(\w+)\) in " + re.escape(cell) + r"\.borrow\(\)\.iter\(\) \{$", c)) for i, c in enumerate(code)]
+    hs = [(i, re.match(r"^(\s*)for \((\w+), (?:&(\w+)|_)\) in " + re.escape(cell) + r"\.borrow\(\)\.iter\(\) \{$", c)) for i, c in enumerate(code)]
     hs = [(i, m) for i, m in hs if m]
     if len(hs) != 1 or hs[0][0] < ai or any(re.search(r"\b(for|while|loop)\b", c) for i, c in enumerate(code) if i != hs[0][0]):
         raise LostAnchor(f"{name}: purge loop header `for (A, &B) in {cell}.borrow().iter() {{` not found exactly once")
     hi, hm = hs[0]
     he = match_brace(body, hi)
-    ind, a, b = hm.group(1), hm.group(2), hm.group(3)
+    ind, a, b = hm.group(1), hm.group(2), hm.group(3) or "strong"   # `_`: the multiplicity is bound all the same (unused by the code)
     inner = []
     for l in body[hi + 1:he]:
         l = R.sub("X3.alloc_eq", r"ptr::eq\(" + re.escape(owner) + r"\.inner\(\), (\w+)\.as_ptr\(\)\)", owner + r".ptr == \1.ptr", l)
